@@ -198,9 +198,9 @@ Definition model_tinfo (fx : fixes) (S : schema) (F : features) (n : name) : sex
         tag "fieldsNoDep" [opt_sexp (fun l => set_of (map (fun nf => SStr (fst nf)) l)) (fields false)];
         tag "interfaces" [opt_sexp (fun l => SL (map SStr l)) (names_ans (ask fx S F (QIntroInterfaces h)))];
         tag "possibleTypes" [names_set (names_ans (ask fx S F (QIntroPossible h)))];
-        tag "enumValues" [names_set (names_ans (ask fx S F (QIntroEnumValues h true)))];
-        tag "enumNoDep" [names_set (names_ans (ask fx S F (QIntroEnumValues h false)))];
-        tag "inputFields" [opt_sexp enc_inputs (match ask fx S F (QIntroInputFields h) with AInputs l => l | _ => None end)]]]]
+        tag "enumValues" [names_set (names_ans (ask fx S F (QEnumValues h true)))];
+        tag "enumNoDep" [names_set (names_ans (ask fx S F (QEnumValues h false)))];
+        tag "inputFields" [opt_sexp enc_inputs (match ask fx S F (QInputFields h) with AInputs l => l | _ => None end)]]]]
   | _ => tag "tinfo" [SStr n; SL [SSym "none"]]
   end.
 
@@ -210,7 +210,7 @@ Definition model_intro (fx : fixes) (S : schema) (F : features) (names : list na
     tag "types" [set_of (map SStr (match names_ans (ask fx S F QIntroTypes) with Some l => l | None => [] end))];
     tag "query" [root RQuery]; tag "mutation" [root RMutation]; tag "subscription" [root RSubscription];
     tag "directives" [set_of (map (fun d => tag "d" [SStr (fst d); enc_inputs (snd d)])
-                                  (match ask fx S F QIntroDirectives with ADirs l => l | _ => [] end))];
+                                  (match ask fx S F QDirectives with ADirs l => l | _ => [] end))];
     tag "tinfos" (map (model_tinfo fx S F) names)].
 
 (** ** what the model says a chain does *)
@@ -405,8 +405,8 @@ Definition query_tag (q : query_) : string :=
   | QImpls _ => "abstract-resolution" | QApplies _ _ => "fragment-applies"
   | QIntroTypes => "intro-types" | QIntroType _ => "intro-type-by-name" | QIntroFields _ _ => "intro-fields"
   | QIntroInterfaces _ => "intro-interfaces" | QIntroPossible _ => "intro-possible-types"
-  | QIntroEnumValues _ _ => "intro-enum-values" | QIntroInputFields _ => "intro-input-fields"
-  | QIntroDirectives => "intro-directives"
+  | QEnumValues _ _ => "enum-values" | QInputFields _ => "input-fields"
+  | QDirectives => "intro-directives" | QDirective _ => "directive-lookup"
   end.
 
 Definition enc_answer (a : answer) : sexp :=
